@@ -38,7 +38,7 @@ BOUNDS = {
     "quick": "n<=5, K<=2 events (K=3 for changepoints), p<=2 columns for the subset format; index kinds: RangeIndex(0,n), "
              "RangeIndex with start in {-3,5} and step in {1,2}, DatetimeIndex, PeriodIndex; string column labels; "
              "transform through stub detectors for DataFrame / ndarray / Series input",
-    "thorough": "n<=7, K<=3, p<=3",
+    "thorough": "changepoints n<=9, K<=4; anomalies n<=8, K<=3; subset format n<=6, K<=3, p<=3",
 }
 STUBS = ["stub detectors returning the given (valid) detections, so that transform is exercised for every detection set"]
 ASSUMPTIONS = ["valid sparse outputs: changepoints 0 < c1 < ... < cK < n; anomalies 0 <= s_i < e_i <= s_{i+1}, e_K <= n "
@@ -271,8 +271,8 @@ def jobs(tier):
         co = [(n, K) for n in (1, 3, 5) for K in (0, 1, 2) if K <= n]
         su = [(3, 1, 2), (4, 2, 2), (3, 2, 1)]
     else:
-        ch = [(n, K) for n in range(2, 8) for K in range(0, 4) if K < n]
-        co = [(n, K) for n in range(1, 8) for K in range(0, 4) if K <= n]
+        ch = [(n, K) for n in range(2, 10) for K in range(0, 5) if K < n]
+        co = [(n, K) for n in range(1, 9) for K in range(0, 4) if K <= n]
         su = [(n, K, p) for n in (3, 5, 6) for K in (1, 2, 3) for p in (1, 2, 3) if K <= n and not (K == 3 and p == 3)]
     for (n, K) in ch:
         out.append(Job(M, "make_change", dict(n=n, K=K), split=K >= 3))
